@@ -264,6 +264,8 @@ class Gen:
 
     def program(self, open_ok=False, module_like=False):
         p = Prog()
+        p.decls.append("let zflag = false")          # a compile-time constant condition for the case-dead-flag sites
+        p.root.append(("zflag", "NValue"))
         if self.chance(0.4):
             f = self.fresh("fn")
             p.decls.append("let %s = v -> v * 2 + 1" % f)
@@ -301,7 +303,14 @@ SITES = {
     "take": "take %s",
     "window-arg": "window rolling:2 (derive {zz = sum %s})",
     "join-cond": "join side:left w (==%s)",
+    # inside `case`: a live condition, and branches that static evaluation removes (constant-false condition, literally or
+    # through the root-level `let zflag = false`; a branch behind a constant-true one) -- names are resolved there all the same
+    "case-cond": "derive {zz = case [%s > 0 => 1, true => 0]}",
+    "case-dead": "derive {zz = case [false => %s, true => 0]}",
+    "case-dead-flag": "derive {zz = case [zflag => %s, true => 0]}",
+    "case-after-true": "derive {zz = case [true => 0, true => %s]}",
 }
+DEAD_SITES = ("case-dead", "case-dead-flag", "case-after-true")
 
 
 # ---------------------------------------------------------------- a module or relation name where a value is required
@@ -336,6 +345,9 @@ VALUE_SITES = {
     "join-cond": "join side:left w (%s == 1)",
     "case": "derive {zz = case [%s == 1 => 2]}",
     "fn-arg": "derive {zz = (math.round 1 %s)}",
+    "case-dead": "derive {zz = case [false => %s, true => 0]}",
+    "case-dead-flag": "derive {zz = case [zflag => %s, true => 0]}",
+    "case-after-true": "derive {zz = case [true => 0, true => %s]}",
 }
 INTERP_SITES = {
     "s-string": "derive {zz = s\"{%s} + 1\"}",
